@@ -1025,6 +1025,9 @@ class CanBeVaries(Element):
         if self.__class__ == CanBeVaries:
             raise OperationNotAllowed("Cannot instantiate a CanBeVaries")
 
+        if validation_level is None:
+            validation_level = get_default_validation_level()
+
         if datatype == 'varies' and reference is None:
             reference = ('leaf', None, 'varies', None, None, -1)
 
@@ -1243,7 +1246,7 @@ class Component(SupportComplexDataType, CanBeVaries):
         CanBeVaries.__init__(self, name, datatype, parent, reference,
                              version, validation_level, traversal_parent)
 
-        if self.is_unknown() and Validator.is_strict(validation_level) and \
+        if self.is_unknown() and Validator.is_strict(self.validation_level) and \
                 not is_base_datatype(self.datatype, self.version) and self.datatype != 'varies':
             raise OperationNotAllowed("Cannot instantiate an unknown Element with strict validation")
 
@@ -1342,6 +1345,9 @@ class Field(SupportComplexDataType):
                  version=None, validation_level=None, traversal_parent=None):
 
         SupportComplexDataType.__init__(self)
+
+        if validation_level is None:
+            validation_level = get_default_validation_level()
 
         if name is None and Validator.is_strict(validation_level) and datatype != 'varies':
             raise OperationNotAllowed("Cannot instantiate an unknown Element with strict validation")
